@@ -310,3 +310,168 @@ package modules
 //@   trusted
 //@   modifies *
 //@   ensures r0 != nil
+
+// ---- C15: microtask admission and accounting (protocol obligations, A-seq)
+
+// the limit is never set below 2
+//@ func SetMaxConcurrentMicroTasks
+//@   requires microTasksThreshhold != nil
+//@   modifies deref(microTasksThreshhold)
+//@   ensures deref(microTasksThreshhold) >= 2 && (n >= 2 && n <= 2147483647 ==> deref(microTasksThreshhold) == int32(n))
+
+// the scheduler grants a clearance (closes a request channel) only right after it read a
+// running count below the limit, and counts every grant exactly once before the next one
+//@ func microTaskScheduler
+//@   nopanic off
+//@   modifies *
+//@   ghost var cnt int32 = 0
+//@   ghost var thr int32 = 0
+//@   ghost var grants int = 0
+//@   ghost var counted int = 0
+//@   at call atomic.LoadInt32#0 assert arg0 == microTasks
+//@   at after atomic.LoadInt32#0 ghost cnt = ret0
+//@   at call atomic.LoadInt32#1 assert arg0 == microTasksThreshhold
+//@   at after atomic.LoadInt32#1 ghost thr = ret0
+//@   at close assert cnt < thr && grants == counted
+//@   at close ghost grants = grants + 1
+//@   at call atomic.AddInt32 assert arg0 == microTasks && arg1 == 1 && grants == counted + 1
+//@   at call atomic.AddInt32 ghost counted = counted + 1
+//@   at return assert grants == counted
+//@   loop 0 invariant grants == counted
+
+// during shutdown every request is granted at once, still counted exactly once
+//@ func microTaskShutdownScheduler
+//@   nopanic off
+//@   modifies *
+//@   ghost var grants int = 0
+//@   ghost var counted int = 0
+//@   at close assert grants == counted
+//@   at close ghost grants = grants + 1
+//@   at call atomic.AddInt32 assert arg0 == microTasks && arg1 == 1 && grants == counted + 1
+//@   at call atomic.AddInt32 ghost counted = counted + 1
+//@   loop 0 invariant grants == counted
+
+// a clearance request is either handed to the scheduler (which will count it when granting)
+// or, if the queue stayed full for maxDelay, the caller counts itself - never both, never neither
+//@ func getMediumPriorityClearance
+//@   nopanic off
+//@   modifies *
+//@   ghost var submitted bool = false
+//@   ghost var inc int32 = 0
+//@   at select mediumPriorityClearance assert chan0 == mediumPriorityClearance
+//@   at select mediumPriorityClearance ghost submitted = (submitted || index == 0)
+//@   at call atomic.AddInt32 assert arg0 == microTasks
+//@   at call atomic.AddInt32 ghost inc = inc + arg1
+//@   ensures inc == (submitted ? int32(0) : int32(1))
+
+//@ func getLowPriorityClearance
+//@   nopanic off
+//@   modifies *
+//@   ghost var submitted bool = false
+//@   ghost var inc int32 = 0
+//@   at select lowPriorityClearance assert chan0 == lowPriorityClearance
+//@   at select lowPriorityClearance ghost submitted = (submitted || index == 0)
+//@   at call atomic.AddInt32 assert arg0 == microTasks
+//@   at call atomic.AddInt32 ghost inc = inc + arg1
+//@   ensures inc == (submitted ? int32(0) : int32(1))
+
+// blocking variants: the function runs through runMicroTask exactly once and its error comes back
+//@ func (*Module).RunHighPriorityMicroTask
+//@   requires m == nil || cntOK(m)
+//@   nopanic off
+//@   modifies *
+//@   ghost var incG int32 = 0
+//@   ghost var runs int = 0
+//@   ghost var inner error = nil
+//@   at call atomic.AddInt32 assert arg0 == microTasks
+//@   at call atomic.AddInt32 ghost incG = incG + arg1
+//@   at call (*Module).runMicroTask assert arg0 == m && arg2 == fn
+//@   at call (*Module).runMicroTask ghost runs = runs + 1
+//@   at after (*Module).runMicroTask ghost inner = ret0
+//@   ensures m != nil ==> incG == 1 && runs == 1 && r0 == inner
+//@   ensures m == nil ==> r0 != nil && runs == 0 && incG == 0
+
+//@ func (*Module).RunMicroTask
+//@   requires m == nil || cntOK(m)
+//@   nopanic off
+//@   modifies *
+//@   ghost var runs int = 0
+//@   ghost var clear int = 0
+//@   ghost var inner error = nil
+//@   at call getMediumPriorityClearance assert arg0 > 0
+//@   at call getMediumPriorityClearance ghost clear = clear + 1
+//@   at call (*Module).runMicroTask assert arg0 == m && arg2 == fn && clear == 1
+//@   at call (*Module).runMicroTask ghost runs = runs + 1
+//@   at after (*Module).runMicroTask ghost inner = ret0
+//@   ensures m != nil ==> runs == 1 && r0 == inner
+//@   ensures m == nil ==> r0 != nil && runs == 0 && clear == 0
+
+//@ func (*Module).RunLowPriorityMicroTask
+//@   requires m == nil || cntOK(m)
+//@   nopanic off
+//@   modifies *
+//@   ghost var runs int = 0
+//@   ghost var clear int = 0
+//@   ghost var inner error = nil
+//@   at call getLowPriorityClearance assert arg0 > 0
+//@   at call getLowPriorityClearance ghost clear = clear + 1
+//@   at call (*Module).runMicroTask assert arg0 == m && arg2 == fn && clear == 1
+//@   at call (*Module).runMicroTask ghost runs = runs + 1
+//@   at after (*Module).runMicroTask ghost inner = ret0
+//@   ensures m != nil ==> runs == 1 && r0 == inner
+//@   ensures m == nil ==> r0 != nil && runs == 0 && clear == 0
+
+// signal variants: +1 for the module; the returned done function concludes at most once
+//@ func (*Module).signalMicroTask
+//@   requires cntOK(m)
+//@   nopanic off
+//@   modifies *
+//@   ghost var inc int32 = 0
+//@   at call atomic.AddInt32 assert arg0 == m.microTaskCnt
+//@   at call atomic.AddInt32 ghost inc = inc + arg1
+//@   ensures inc == 1 && done != nil
+
+//@ func (*Module).signalMicroTask$1
+//@   requires cntOK(m) && doneCalled != nil
+//@   nopanic off
+//@   modifies *
+//@   ghost var concluded int = 0
+//@   at call (*Module).concludeMicroTask assert arg0 == m && deref(doneCalled) == 1
+//@   at call (*Module).concludeMicroTask ghost concluded = concluded + 1
+//@   ensures concluded == (old(deref(doneCalled)) == 0 ? 1 : 0)
+
+//@ func (*Module).SignalHighPriorityMicroTask
+//@   requires m == nil || cntOK(m)
+//@   nopanic off
+//@   modifies *
+//@   ghost var incG int32 = 0
+//@   ghost var sig int = 0
+//@   at call atomic.AddInt32 assert arg0 == microTasks
+//@   at call atomic.AddInt32 ghost incG = incG + arg1
+//@   at call (*Module).signalMicroTask ghost sig = sig + 1
+//@   ensures m != nil ==> incG == 1 && sig == 1
+//@   ensures m == nil ==> incG == 0 && sig == 0 && done == nil
+
+//@ func (*Module).SignalMicroTask
+//@   requires m == nil || cntOK(m)
+//@   nopanic off
+//@   modifies *
+//@   ghost var clear int = 0
+//@   ghost var sig int = 0
+//@   at call getMediumPriorityClearance ghost clear = clear + 1
+//@   at call (*Module).signalMicroTask assert clear == 1
+//@   at call (*Module).signalMicroTask ghost sig = sig + 1
+//@   ensures m != nil ==> sig == 1
+//@   ensures m == nil ==> clear == 0 && sig == 0 && done == nil
+
+//@ func (*Module).SignalLowPriorityMicroTask
+//@   requires m == nil || cntOK(m)
+//@   nopanic off
+//@   modifies *
+//@   ghost var clear int = 0
+//@   ghost var sig int = 0
+//@   at call getLowPriorityClearance ghost clear = clear + 1
+//@   at call (*Module).signalMicroTask assert clear == 1
+//@   at call (*Module).signalMicroTask ghost sig = sig + 1
+//@   ensures m != nil ==> sig == 1
+//@   ensures m == nil ==> clear == 0 && sig == 0 && done == nil
